@@ -2,6 +2,8 @@ package node
 
 import (
 	"fmt"
+	"net"
+	"os"
 	"testing"
 
 	gomavlib "github.com/bluenviron/gomavlib/v3"
@@ -239,6 +241,119 @@ func runC13ManyStalled(nch, healthy, items int) error {
 				return fmt.Errorf("link %d: order not preserved after recovery: %d after %d", i, vs[k], vs[k-1])
 			}
 		}
+	}
+	return nil
+}
+
+// TestC13PartialWritesDoNotPileUp: a congested link takes a few bytes of every write and then fails it (a write
+// deadline on a slow link). Whatever the node does about the rest of such a frame, it must not collect failed
+// frames behind the backlog: when the link recovers, at most backlog + 1 old items can still come out of it.
+func TestC13PartialWritesDoNotPileUp(t *testing.T) {
+	rec := evid.New(t, "C13", "2 custom transports; on the victim every Write takes 1..12 bytes and fails with a deadline error for 200..500 items that are written to it one at a time (each write call awaited, so its backlog stays empty); then the link recovers and 5 markers follow; the byte stream the victim carries after recovery is scanned for whole valid frames: at most 65 items of the congested period may appear, and the stream must not grow beyond what 65 + 5 frames and the torn starts account for; the other link receives every item; non-trivial = always; distinct by hash of the parameters")
+	rec.Require("every-write-partly-taken-and-failed")
+	evid.Check(t, rec, evid.N(20, 100), func(t *rapid.T) {
+		drawNodeInit(t)
+		items := rapid.IntRange(200, 500).Draw(t, "items_while_congested")
+		take := rapid.IntRange(1, 12).Draw(t, "bytes_taken_per_write")
+		desc := fmt.Sprintf("itemsWhileCongested=%d bytesTakenPerWrite=%d", items, take)
+		if err := watchdog(scenarioLimit, func() error { return runC13PartialWrites(items, take) }); err != nil {
+			evid.ReplayNote("C13", "TestC13PartialWritesDoNotPileUp", desc+"\n"+err.Error())
+			t.Fatalf("%s\n%v", desc, err)
+		}
+		rec.Case(true, evid.HashS(desc), "every-write-partly-taken-and-failed")
+		if rec.WantSample("partial-writes") {
+			rec.Sample("partial-writes", desc)
+		}
+	})
+}
+
+func runC13PartialWrites(items, take int) error {
+	pipes := []*sim.Pipe{sim.NewPipe(), sim.NewPipe()}
+	n := &gomavlib.Node{Endpoints: []gomavlib.EndpointConf{gomavlib.EndpointCustom{ReadWriteCloser: pipes[0]}, gomavlib.EndpointCustom{ReadWriteCloser: pipes[1]}},
+		Dialect: ardupilotmega.Dialect, OutVersion: gomavlib.V2, OutSystemID: nodeSys, HeartbeatDisable: true}
+	if err := initNode(&n); err != nil {
+		return fmt.Errorf("BROKEN: %v", err)
+	}
+	rec := sim.StartRecorder(n, sim.Pacing{Kind: "fast"}, nil)
+	defer func() {
+		closeNode(n, bound) //nolint:errcheck
+		rec.WaitClosed(bound)
+	}()
+	if _, ok := openCustom(n, rec, pipes); !ok {
+		return fmt.Errorf("BROKEN: channels did not open")
+	}
+	victim := pipes[0]
+	victim.SetPartialWrites(take, &net.OpError{Op: "write", Net: "tcp", Err: os.ErrDeadlineExceeded})
+	for c := 0; c < items; c++ {
+		calls := victim.WriteCalls()
+		if err := n.WriteMessageAll(&common.MessageDebug{TimeBootMs: uint32(c), Ind: 6}); err != nil {
+			return fmt.Errorf("write refused: %v", err)
+		}
+		if !victim.WaitWriteCalls(calls+1, bound) || !pipes[1].WaitWrites(c+1, bound) {
+			return fmt.Errorf("item %d: the congested link's writer made no write call, or the healthy link did not receive it, within %v", c, bound)
+		}
+	}
+	if victim.NumWrites() != 0 {
+		return fmt.Errorf("BROKEN: complete writes on the congested link")
+	}
+	victim.SetPartialWrites(0, nil)
+	for k := 0; k < 5; k++ {
+		if err := n.WriteMessageAll(&common.MessageDebug{TimeBootMs: uint32(1000000 + k), Ind: 6}); err != nil {
+			return fmt.Errorf("write refused: %v", err)
+		}
+		if !pipes[1].WaitWrites(items+k+1, bound) {
+			return fmt.Errorf("the healthy link did not receive marker %d", k)
+		}
+		sleepShort()
+	}
+	// give the victim time to put out whatever it holds, then look at the bytes
+	stable, last := 0, -1
+	for stable < 40 {
+		sleepShort()
+		nw := 0
+		for _, w := range victim.Writes() {
+			nw += len(w)
+		}
+		if nw == last {
+			stable++
+		} else {
+			stable, last = 0, nw
+		}
+	}
+	var stream []byte
+	for _, w := range victim.Writes() {
+		stream = append(stream, w...)
+	}
+	ld := lay(debugMsgID)
+	stale, markers := 0, 0
+	for off := 0; off < len(stream); off++ {
+		if stream[off] != 0xFD {
+			continue
+		}
+		f, nb, err := ref.Parse(stream[off:])
+		if err != nil || f.ID != debugMsgID || f.Checksum != f.ChecksumFor(ld.CRCExtra) {
+			continue
+		}
+		v, derr := ld.Decode(f.Payload, true)
+		if derr != nil {
+			continue
+		}
+		if c := int(v.(*common.MessageDebug).TimeBootMs); c >= 1000000 {
+			markers++
+		} else {
+			stale++
+		}
+		off += nb - 1
+	}
+	if stale > 65 {
+		return fmt.Errorf("every one of the %d writes made while the link was congested took %d bytes and failed; after the link recovered it put out %d whole frames of that period (%d bytes in all, %d markers): more than a backlog of 64 + 1 can hold - failed writes pile up somewhere", items, take, stale, len(stream), markers)
+	}
+	if markers == 0 {
+		return fmt.Errorf("after the link recovered none of the 5 markers written to it came out (%d bytes, %d old frames)", len(stream), stale)
+	}
+	cs, err := counters(pipes[1])
+	if err != nil || len(cs) != items+5 {
+		return fmt.Errorf("the healthy link carries %d items (%v), %d were written", len(cs), err, items+5)
 	}
 	return nil
 }
